@@ -218,6 +218,8 @@ def d_conn(c, large, style):
         base['NCP'] = rf.enc_ncp(c, large)
     elif style == 'decoding':           # what client.forward_open passes: Connection(...).decoding
         base.update(fields, NCP=rf.enc_ncp(c, large), large=large)
+    elif style == 'auto':               # individual fields only: produce() deduces Small/Large from the sizes of both directions
+        base.update(fields)
     else:
         base.update(fields)
         if large:
@@ -272,6 +274,8 @@ def d_mr(m, opts):
             if opts.get('svc_explicit'):
                 d['service'] = code
             style = opts.get('fo_style', 'fields')
+            if style == 'auto' and large != any(m[k]['size'] > 0x1FF for k in ('O_T', 'T_O')):
+                style = 'fields'        # the sizes alone would not say Large: say it explicitly
             d[ctx] = {'priority_time_tick': m['priority_time_tick'], 'timeout_ticks': m['timeout_ticks'],
                       'O_T': d_conn(m['O_T'], large, style), 'T_O': d_conn(m['T_O'], large, style),
                       'connection_serial': m['connection_serial'], 'O_vendor': m['O_vendor'],
